@@ -69,17 +69,61 @@ def judgeInv (sc : Scenario) (s : IStep) : Option String :=
       if (nprim : Int) > max 0 (1 + sc.cfg.rm) then some "cross-stays-in-primary"
       else judgeSubs sc.cfg p s.evs
 
+/-! failNum bookkeeping, recounted from the implementation's own trace and the op's script (independent of the model's
+    loop): a RoundTrip that ends with a response resets the backend's failNum (OnSuccess), one that ends with a
+    connect / write (not caused by the client) / read-header / timeout error adds exactly one (OnFail), everything else
+    leaves it; the health check's recovery (u step) resets it. -/
+
+def bumpFail (m : List (String × Nat)) (l : String) (f : Nat → Nat) : List (String × Nat) :=
+  if m.any (·.1 == l) then m.map fun p => if p.1 == l then (p.1, f p.2) else p else (l, f 0) :: m
+
+def failsAfter (script : List Attempt) : List IEv → Nat → List (String × Nat) → List (String × Nat)
+  | [], _, m => m
+  | e :: es, j, m =>
+    if e.fin then failsAfter script es (j + 1) m
+    else
+      let m' := match (script.getD j Attempt.dflt).rt with
+        | .ok _ => bumpFail m e.label fun _ => 0
+        | .connect | .write | .rhdr | .timeout => bumpFail m e.label (· + 1)
+        | _ => m
+      failsAfter script es (j + 1) m'
+
+def flEq (m : List (String × Nat)) (fl : String) : Bool :=
+  match parseSnap fl with
+  | none => false
+  | some s =>
+    (s.all fun p => ((m.find? fun q => q.1 == p.1).map (·.2)).getD 0 == p.2.toNat) &&
+    (m.all fun q => q.2 == 0 || s.any fun p => p.1 == q.1 && p.2.toNat == q.2)
+
+def judgeFails (sc : Scenario) : List IStep → List (String × Nat) → Option String
+  | [], _ => none
+  | s :: ss, m =>
+    if s.isInv then
+      if s.panic then none else
+      let rq := sc.reqs.getD s.k ⟨false, false, [], [], none⟩
+      let m' := failsAfter rq.script s.evs 0 m
+      if s.fl != "" && !flEq m' s.fl then some "failnum-mismatch" else judgeFails sc ss m'
+    else if s.flip then
+      -- u<k>: recovery resets the failNum of backend #k ; d / x leave it
+      judgeFails sc ss (match parseSnap s.fl with
+        | some snap => m.map fun q => if snap.any (·.1 == q.1) then q else (q.1, 0)
+        | none => m)
+    else judgeFails sc ss m
+
 def specVerdict (sc : Scenario) (impl : String) : String :=
   match parseImpl impl with
   | none => "FAIL:unparsable"
   | some steps =>
     match (steps.filter (·.isInv)).findSome? (judgeInv sc) with
-    | none => "ok"
     | some c => "FAIL:" ++ c
+    | none =>
+      match judgeFails sc steps [] with
+      | some c => "FAIL:" ++ c
+      | none => "ok"
 
 def rtTag : Rt → String
   | .ok _ => "resp" | .connect => "connect" | .write => "write" | .writeT => "write" | .rhdr => "rhdr"
-  | .timeout => "timeout" | .broken => "broken" | .other => "other"
+  | .timeout => "timeout" | .broken => "broken" | .other => "other" | .panic => "panic"
 
 def tagsOf (sc : Scenario) (steps : List IStep) (nd : Bool) : List String :=
   let invs := steps.filter (·.isInv)
